@@ -3,7 +3,7 @@ import os
 import re
 import sys
 
-from .. import hir, rtable, paths
+from .. import hir, rtable, paths, minirust
 from ..controls import fixture
 
 sys.path.insert(0, os.path.dirname(os.path.dirname(os.path.dirname(os.path.abspath(__file__)))))
@@ -173,6 +173,87 @@ def display_structure(f):
     return head_ok, loop_ok
 
 
+# ---------------------------------------------------------------- D3 by evaluation of the printers (round 2)
+
+class _PhaseHost(minirust.Obj):
+    """the phase of a gate: every accessor yields a marker that prints as itself"""
+
+    class Marker:
+        def __init__(self, how):
+            self.how = how
+
+        def fmt_display(self):
+            return '<phase.%s>' % self.how
+
+    def __init__(self, zero=False):
+        minirust.Obj.__init__(self, 'phase', {'to_f64': lambda a: _PhaseHost.Marker('to_f64'), 'clone': lambda a: self, 'is_zero': lambda a: zero}, strict=False)
+
+
+def _printer_interp(facts):
+    it = minirust.Interp(fuel=8000, facts=facts, inline=lambda c: c.startswith(('gate::Gate::', 'gate::GType::', 'circuit::Circuit::')))
+    return it
+
+
+def to_qasm_outputs(facts):
+    """Gate::to_qasm evaluated for every kind on the qubit list [3, 1, 4]: kind -> printed text"""
+    f = facts['fns']['gate::Gate::to_qasm']
+    ps = [p for p in f['params'] if p.get('k') == 'Bind']
+    out = {}
+    for v in rtable.enum_variants(facts, GT):
+        res = []
+        for zero in (False, True):
+            it = _printer_interp(facts)
+            gate = {'__struct__': 'gate::Gate', 't': ('const', GT + '::' + v), 'qs': [3, 1, 4], 'phase': _PhaseHost(zero), 'vars': minirust.Obj('parity', {}, strict=False)}
+            try:
+                r = it.ev(f['hir'], {ps[0]['id']: gate})
+            except minirust._Return as ex:
+                r = ex.v
+            if not isinstance(r, str):
+                raise minirust.NoEval('to_qasm(%s) = %r' % (v, r))
+            res.append(str(r))
+        # the printed form may not depend on the VALUE of the phase (a zero rotation still has its parameter: the prelude declares it)
+        out[v] = res[0] if res[0] == res[1] else '%s | with a zero phase: %s' % (res[0], res[1])
+    return out
+
+
+def display_output(facts, kinds=('CNOT', 'ZPhase', 'HAD')):
+    """<Circuit as Display>::fmt evaluated on a 5-qubit circuit with three gates that touch only qubits 0..2: (text, [to_qasm of each gate])"""
+    key = '<circuit::Circuit as std::fmt::Display>::fmt'
+    f = facts['fns'][key]
+    ps = [p for p in f['params'] if p.get('k') == 'Bind']
+    if len(ps) != 2:
+        raise minirust.NoEval('signature of fmt')
+    gates = [{'__struct__': 'gate::Gate', 't': ('const', GT + '::' + v), 'qs': qs, 'phase': _PhaseHost(), 'vars': minirust.Obj('parity', {}, strict=False)}
+             for v, qs in zip(kinds, ([0, 1], [2], [1]))]
+    circ = {'__struct__': 'circuit::Circuit', 'nqubits': 5, 'gates': gates}
+    buf = []
+
+    def write(a):
+        if not isinstance(a[0], str):
+            raise minirust.NoEval('write of %r' % (a[0],))
+        buf.append(str(a[0]))
+        return ('Ok', ())
+    fm = minirust.Obj('formatter', {'write_fmt': write, 'write_str': write}, strict=False)
+    it = _printer_interp(facts)
+    try:
+        r = it.ev(f['hir'], {ps[0]['id']: circ, ps[1]['id']: fm})
+    except minirust._Return as ex:
+        r = ex.v
+    if r != ('Ok', ()):
+        raise minirust.NoEval('fmt returned %r' % (r,))
+    tq = facts['fns']['gate::Gate::to_qasm']
+    tps = [p for p in tq['params'] if p.get('k') == 'Bind']
+    each = []
+    for g in gates:
+        it2 = _printer_interp(facts)
+        try:
+            t = it2.ev(tq['hir'], {tps[0]['id']: g})
+        except minirust._Return as ex:
+            t = ex.v
+        each.append(str(t))
+    return ''.join(buf), each
+
+
 def opaque_args_in_order(f):
     """GateWriter::write_opaque: the qubit arguments of the parsed gate are exactly the `regs` it is given, in order.  (ok, msg)"""
     regs = [p for p in f['params'] if p.get('k') == 'Bind' and p['name'] not in ('self', 'name', 'params')]
@@ -250,18 +331,37 @@ def run(ck):
     for v in variants:
         ck.ob('R-TABLE-arity', v, ar is not None and ar.get(v) == G.GATES[v]['arity'], ck.site('gate::GType::num_qubits'),
               'num_qubits(%s) = %s, reference arity %s' % (v, ar.get(v) if ar else None, G.GATES[v]['arity']), sample={'kind': v, 'arity': ar.get(v) if ar else None})
-    pk, phase_ok = printed_param_kinds(ck.fn('gate::Gate::to_qasm'))
     ref_pk = {k for k, g in G.GATES.items() if g['param']}
-    ck.ob('R-TABLE-param', 'to_qasm/param-kinds', pk == ref_pk, ck.site('gate::Gate::to_qasm'), 'to_qasm prints a parameter for %s, reference %s' % (sorted(pk), sorted(ref_pk)), sample={'kinds': sorted(pk)})
-    ck.ob('R-TABLE-param', 'to_qasm/param-is-phase', phase_ok, ck.site('gate::Gate::to_qasm'), 'the printed parameter is not derived from self.phase')
     tq = ck.fn('gate::Gate::to_qasm')
-    fm = hir.format_calls(tq['hir'])
-    qarg = [1 for t, a, _n in fm if t == 'q[{}]']
-    name_first = any(hir.callee(c) == 'gate::Gate::qasm_name' for c in hir.calls(tq['hir']))
-    iter_all = any(c.get('k') == 'MethodCall' and c['name'] == 'iter' and hir.place(hir.strip(c['recv'])) and hir.place(hir.strip(c['recv']))[2] == [('f', 'qs')] for c in hir.calls(tq['hir']))
-    skips = any(c.get('k') == 'MethodCall' and c['name'] in ('skip', 'take', 'rev', 'filter', 'step_by') for c in hir.calls(tq['hir']))
-    ck.ob('R-EFFECT', 'to_qasm/structure', bool(qarg) and name_first and iter_all and not skips, ck.site('gate::Gate::to_qasm'),
-          'to_qasm must print qasm_name() and every element of self.qs in order as q[i]')
+    try:
+        outs = to_qasm_outputs(facts)
+        pk = {v for v, t in outs.items() if '(' in t.split(' q[')[0]}
+        ck.ob('R-TABLE-param', 'to_qasm/param-kinds', pk == ref_pk, ck.site('gate::Gate::to_qasm'), 'to_qasm prints a parameter for %s, reference %s' % (sorted(pk), sorted(ref_pk)), sample={'kinds': sorted(pk)})
+        bad_p = sorted((v, outs[v]) for v in pk if '(<phase.to_f64>*pi)' not in outs[v])
+        ck.ob('R-TABLE-param', 'to_qasm/param-is-phase', not bad_p, ck.site('gate::Gate::to_qasm'), 'the printed parameter is not `(self.phase.to_f64()*pi)`: %s' % bad_p[:2])
+        bad_s = []
+        for v, t in sorted(outs.items()):
+            want = (k2n.get(v) or '?') + ('(<phase.to_f64>*pi)' if v in pk else '') + ' q[3], q[1], q[4]'
+            if t != want:
+                bad_s.append((v, t, want))
+        ck.ob('R-EFFECT', 'to_qasm/structure', not bad_s, ck.site('gate::Gate::to_qasm'),
+              'to_qasm must print qasm_name(), the parameter if any, and every element of self.qs in order as q[i]: %s' % ['%s prints %r, expected %r' % b for b in bad_s[:2]], sample={'CNOT': outs.get('CNOT'), 'ZPhase': outs.get('ZPhase')})
+        ck.floor('R-EFFECT-to_qasm-kinds', len(outs), 21)
+        ck.note('Gate::to_qasm: decided by evaluation for every kind')
+    except (minirust.NoEval, minirust.Proceed, TypeError, KeyError, IndexError, AttributeError) as ex:
+        ck.note('Gate::to_qasm: the evaluator declined (%s); syntactic reading used' % ex)
+        pk, phase_ok = printed_param_kinds(tq)
+        ck.ob3('R-TABLE-param', 'to_qasm/param-kinds', True if pk == ref_pk else None, ck.site('gate::Gate::to_qasm'), 'to_qasm is not evaluable (%s) and the kinds with a printed parameter could not be read off (%s)' % (ex, sorted(pk)), sample={'kinds': sorted(pk)})
+        ck.ob3('R-TABLE-param', 'to_qasm/param-is-phase', True if phase_ok else None, ck.site('gate::Gate::to_qasm'), 'to_qasm is not evaluable (%s) and the printed parameter could not be traced to self.phase' % ex)
+        fm = hir.format_calls(tq['hir'])
+        qarg = [1 for t, a, _n in fm if t == 'q[{}]']
+        name_first = any(hir.callee(c) == 'gate::Gate::qasm_name' for c in hir.calls(tq['hir']))
+        iter_all = any(c.get('k') == 'MethodCall' and c['name'] == 'iter' and hir.place(hir.strip(c['recv'])) and hir.place(hir.strip(c['recv']))[2] == [('f', 'qs')] for c in hir.calls(tq['hir']))
+        skips = any(c.get('k') == 'MethodCall' and c['name'] in ('skip', 'take', 'rev', 'filter', 'step_by') for c in hir.calls(tq['hir']))
+        ck.ob3('R-EFFECT', 'to_qasm/structure', True if (bool(qarg) and name_first and iter_all and not skips) else None, ck.site('gate::Gate::to_qasm'),
+               'to_qasm is not evaluable (%s) and not of the known structure' % ex)
+        if pk != ref_pk:
+            pk = ref_pk       # the prelude comparison below needs a parameter table; the reference one is used when the printer could not be read
     pre = prelude(facts)
     np = 0
     for v in G.QASM_SET:
@@ -305,22 +405,48 @@ def run(ck):
         ck.violation('R-PATH', 'param_to_phase/anchor', 'circuit.rs', 'anchor-missing: param_to_phase')
     else:
         pf2 = ck.fn(ppk[0])
-        exact = False
+        from ..hfacts import APaths
+        ap = APaths(pf2)
+        exact = None
+        seen = []
         for p2 in paths.return_paths(pf2):
-            guard = any(c[0] == 'cond' and c[2] and hir.strip(c[1]).get('k') == 'MethodCall' and hir.strip(c[1])['name'] == 'is_zero' and hir.strip(hir.strip(c[1])['recv']).get('name') == 'a' for c in p2.conds)
+            conds = [(ap.of(c[1]), c[2]) for c in p2.conds if c[0] == 'cond']
+            guard = any(t == 'param#0.a.is_zero()' and pol for t, pol in conds)
             r = p2.ret
             if guard and r is not None:
-                txt = hir.pp(r)
-                floaty = any(x.get('k') == 'Cast' and (x.get('ty') or '') in ('f32', 'f64') for x in hir.nodes(r)) or 'approximate_float' in txt or 'into_float' in txt
-                from_b = '.b.numer()' in txt and '.b.denom()' in txt
-                exact = exact or (from_b and not floaty)
-        ck.ob('R-PATH', 'param_to_phase/exact-pi-multiples', exact, ck.site(ppk[0]),
-              'a parameter that is an exact rational multiple of pi (no float part) must be turned into a phase from its numerator and denominator, without passing through a float')
+                txt = ap.of(r)
+                seen.append(txt)
+                floaty = 'as_f32(' in txt or 'as_f64(' in txt or 'approximate_float' in txt or 'into_float' in txt or 'to_f64' in txt or 'to_f32' in txt
+                from_b = 'param#0.b.numer()' in txt and 'param#0.b.denom()' in txt
+                if from_b and not floaty:
+                    exact = True
+                elif floaty and exact is None and '?' not in txt:
+                    exact = False
+        if exact is None and not seen:
+            # no path is guarded by the absence of a float part: if every value the function can return passes through a float, exact multiples do too
+            allr = [ap.of(p2.ret) for p2 in paths.return_paths(pf2) if p2.ret is not None]
+            if allr and all(('as_f32(' in t or 'as_f64(' in t or 'approximate_float' in t or 'into_float' in t) for t in allr):
+                exact = False
+                seen = allr
+        ck.ob3('R-PATH', 'param_to_phase/exact-pi-multiples', exact, ck.site(ppk[0]),
+               'a parameter that is an exact rational multiple of pi (no float part) must be turned into a phase from its numerator and denominator, without passing through a float (value on the float-free path: %s)' % (seen[:1] or 'no path guarded by value.a.is_zero() found'))
     # D3
     df = ck.fn('<circuit::Circuit as std::fmt::Display>::fmt')
-    h, l = display_structure(df)
-    ck.ob('R-EFFECT', 'Display/header', h, ck.site('<circuit::Circuit as std::fmt::Display>::fmt'), 'the qreg header must print self.num_qubits()')
-    ck.ob('R-EFFECT', 'Display/all-gates-in-order', l, ck.site('<circuit::Circuit as std::fmt::Display>::fmt'), 'every gate of self.gates must be printed, unconditionally and in order, through to_qasm')
+    dsite = ck.site('<circuit::Circuit as std::fmt::Display>::fmt')
+    try:
+        text, each = display_output(facts)
+        lines = text.split('\n')
+        ck.ob('R-EFFECT', 'Display/header', 'qreg q[5];' in lines, dsite, 'the qreg header must print self.num_qubits(): a 5-qubit circuit prints %r' % text[:80])
+        after = lines[lines.index('qreg q[5];') + 1:] if 'qreg q[5];' in lines else lines
+        body = [x for x in after if x != '']
+        ck.ob('R-EFFECT', 'Display/all-gates-in-order', body == [t + ';' for t in each], dsite,
+              'every gate of self.gates must be printed, unconditionally and in order, through to_qasm: after the header the circuit prints %s, its gates are %s' % (body, each))
+        ck.note('Display for Circuit: decided by evaluation on a three-gate circuit')
+    except (minirust.NoEval, minirust.Proceed, TypeError, KeyError, IndexError, AttributeError) as ex:
+        ck.note('Display for Circuit: the evaluator declined (%s); syntactic reading used' % ex)
+        h, l = display_structure(df)
+        ck.ob3('R-EFFECT', 'Display/header', True if h else None, dsite, 'Display::fmt is not evaluable (%s) and the qreg header could not be traced to self.num_qubits()' % ex)
+        ck.ob3('R-EFFECT', 'Display/all-gates-in-order', True if l else None, dsite, 'Display::fmt is not evaluable (%s) and not of the known loop structure' % ex)
     wk = [k for k in facts['fns'] if k.endswith('::write_opaque') and 'GateWriter' in k and 'param_to_phase' not in k]
     if len(wk) != 1:
         ck.violation('R-DATAFLOW-args', 'write_opaque/args-in-order', 'quizx/src/circuit.rs', 'anchor-missing: GateWriter::write_opaque')
@@ -335,11 +461,19 @@ def run(ck):
     pk = 'circuit::Circuit::from_qasm_parser'
     pf = ck.fn(pk)
     starts_unknown = any((hir.callee(c) or '') == 'circuit::Circuit::new' and hir.lit_int(hir.strip(c['args'][0])) == 0 for c in hir.calls(pf['hir']))
-    reads_decls = any(n.get('k') == 'Field' and n['name'] == 'decls' for n in hir.nodes(pf['hir'])) and any('QReg' in (hir.pat_ctor(a['pat']) or hir.pp_pat(a['pat'])) for m in hir.find(pf['hir'], 'Match') for a in m['arms'])
+    reads_decls = any(n.get('k') == 'Field' and n['name'] == 'decls' for n in hir.nodes(pf['hir']))
+    qreg_pat = any('QReg' in hir.pp_pat(n['pat']) for n in hir.nodes(pf['hir']) if n.get('k') in ('LetCond', 'Let') and n.get('pat')) \
+        or any('QReg' in hir.pp_pat(a['pat']) for m in hir.find(pf['hir'], 'Match') for a in m['arms'])
     sets_count = [c for c in hir.calls(pf['hir']) if (hir.callee(c) or '') == 'circuit::Circuit::new' and hir.lit_int(hir.strip(c['args'][0])) is None]
-    ck.ob('R-PATH', 'from_qasm/qubit-count-of-a-program-without-statements', (not starts_unknown) or (reads_decls and bool(sets_count)), ck.site(pk),
-          'the parsed circuit starts with 0 qubits and its count is only ever set by GateWriter::initialize, which openqasm calls at the first statement: a program that declares registers but has no gate '
-          '(what Circuit::new(n).to_qasm() prints) parses back as a 0-qubit circuit — zero-gate circuits do not round-trip')
+    if not starts_unknown or (reads_decls and qreg_pat and sets_count):
+        v = True
+    elif not reads_decls and not sets_count:
+        v = False       # nothing reads the declarations and no circuit with a computed size is ever built: the count of an empty program stays 0
+    else:
+        v = None
+    ck.ob3('R-PATH', 'from_qasm/qubit-count-of-a-program-without-statements', v, ck.site(pk),
+           'the parsed circuit starts with 0 qubits and its count is only ever set by GateWriter::initialize, which openqasm calls at the first statement: a program that declares registers but has no gate '
+           '(what Circuit::new(n).to_qasm() prints) parses back as a 0-qubit circuit — zero-gate circuits do not round-trip')
     # positive controls
     fx = fixture()
     nt2 = name_tables(fx)
